@@ -22,6 +22,7 @@ struct Ctx {
   int nx = 0;
   std::map<std::string, Ref> out;   // evaluator id ("grad_u/I2#1" for direction 1) -> reference
   bool near_branch = false;         // sample too close to a branch of a piecewise model: skipped and counted
+  bool fields_only = false;         // the driver wants exact fields / gradients only (no source terms): admissibility of the sources is irrelevant
   mutable std::set<std::string> used;
   const EQ& p(const std::string& n) const {
     auto it = P.find(n);
@@ -57,7 +58,15 @@ struct Sol {
   int (*delta_kind)(const Sol&, const std::string& name) = nullptr;
   // magnitude stretch: 0 none, 1 field groups + wave numbers + lengths + whitelisted positive constants, 2 lengths + constants only
   int stretch = 0;
+  // puts one coordinate of the point on a nodal / extremal set of the documented field for the current parameters (a phase at a multiple
+  // of pi/2): faults that live on such sets have probability zero under independent draws (nullptr: none)
+  void (*nodal)(vh::Rng&, const std::map<std::string, long double>& P, long double* xs, int n) = nullptr;
 };
+struct PointInfo { bool irregular = false, far_pt = false; std::string kind; };
+// next evaluation point: a fresh draw from the solution's domain, structured variants of it (axes, near axes, equal coordinates, coordinates tied
+// to the length scale, integers and half-integers, nodal sets, the 5x / 50x box) and variants of the PREVIOUS point (one coordinate redrawn and the
+// others bit-identical, only the last coordinate redrawn, a relative nudge of 1e-5..1e-12, one coordinate set to another one's value)
+void make_point(vh::Rng& r, const Sol& s, const std::map<std::string, long double>& P, const long double* prev, bool have_prev, bool same_as_prev, long double* xs, PointInfo& info);
 int default_special_ok(const std::string& name);
 void specialise(vh::Rng& r, const Sol& s, Draw& d, const std::vector<std::string>& names, std::string& what);
 int default_delta_kind(const Sol& s, const std::string& name);
